@@ -267,6 +267,13 @@ class SyncDummy:
         got = []
         if dev._qwrite.qsize() == 0:
             got.append("nothing-reached-the-device")
+        # what the interface-specific write was handed: the request plus fewer than p zeros, a multiple of p
+        for item in list(dev._qwrite.queue):
+            item = bytes(item)
+            k = len(item) - len(bytes(data))
+            if not (item[:len(data)] == bytes(data) and k >= 0 and not any(item[len(data):])
+                    and ((p == 0 and k == 0) or (p > 0 and k < p and len(item) % p == 0))):
+                got.append(f"write-not-aligned:{len(bytes(data))}+{k}@{p}")
         while dev._qwrite.qsize():
             try:
                 dev._thread_recv()
